@@ -202,8 +202,13 @@ class TriggerHandler:
     def __actions_for_location(self, event, file, line, function, frame):
         actions = []
         for trigger in self._tp_config:
-            if trigger.at_location(event, file, line, function, frame):
-                actions += trigger.actions
+            try:
+                if trigger.at_location(event, file, line, function, frame):
+                    actions += trigger.actions
+            except Exception:
+                # a location that cannot be matched (e.g. it needs the source of the frame, and that is not available)
+                # must not take the other tracepoints of this event with it
+                logging.debug("Cannot match location %s", trigger.id)
         return actions
 
     def __process_call_backs(self, ctx: 'TriggerContext', arg: any, frame: FrameType, event: str, file: str, line: int,
